@@ -16,7 +16,7 @@ Definition wf_mdp (m : mdp) : Prop :=
 
 (* boolean twin used by generators' self-check and extracted drivers *)
 Definition wf_mdpb (m : mdp) : bool :=
-  (0 <? nS m)%nat && (0 <? nA m)%nat && Qlt_le_dec 0 (gam m) && Qlt_le_dec (gam m) 1 &&
+  (0 <? nS m)%nat && (0 <? nA m)%nat && negb (Qle_bool (gam m) 0) && negb (Qle_bool 1 (gam m)) &&
   (length (P m) =? nA m)%nat && (length (R m) =? nS m)%nat &&
   forallb (fun pa => (length pa =? nS m)%nat &&
                      forallb (fun r => (length r =? nS m)%nat && is_distb r) pa) (P m) &&
